@@ -505,7 +505,9 @@ func (b *Builder) Size(t types.Type) uintptr {
 	case *types.Map:
 		return b.PtrSize
 	case *types.Array:
-		return uintptr(t.Len()) * b.Size(t.Elem())
+		// As for structs, ask the program's sizes: elements may contain
+		// function values, which occupy two words.
+		return uintptr(b.Sizes.Sizeof(t))
 	case *types.Chan:
 		return b.PtrSize
 	case *types.Named:
